@@ -673,7 +673,7 @@ Definition cycle (fuel : nat) (explicit : bool) (t : Z) (ops : list op) (m : mes
   let m4 := mesh_eval fuel t ad rm md m3 in
   let body := rev (m_ev m4) ++ (if failed m4 then [] else sink_lines m4) in
   let out := match body with [] => [] | _ => [10; t] :: body end in
-  (m4, if failed m4 then out ++ [[19; m_err m4]] else out).
+  (m4, if m_oob m4 then [[99]] else if failed m4 then out ++ [[19; m_err m4]] else out).
 
 Fixpoint drive (fuel : nat) (explicit : bool) (times : list Z) (ops : list op) (m : mesh) : wire :=
   match times with
@@ -686,10 +686,13 @@ Fixpoint drive (fuel : nat) (explicit : bool) (times : list Z) (ops : list op) (
 Definition run_mesh_with (fx : bool) (w : wire) : wire :=
   let h := decode w (mkHdr 1 10 0 []) in
   if (h_start h <? 1) || (h_end h <=? h_start h) || (1000000 <? h_end h) then [[19; 1]] else
-  let ops := filter (fun o => (h_start h <=? o_t o) && (o_t o <=? h_end h)) (h_ops h) in
+  let ops := filter (fun o => (h_start h <=? o_t o) && (o_t o <? h_end h)) (h_ops h) in   (* the engine stops before end_time *)
   let times := zsort (zdedup (map o_t ops)) in
   let nk := length (zdedup (map o_key ops ++ map o_val ops)) in
-  drive (nk + 70) (negb (h_explicit h =? 0)) times ops (empty_mesh fx).
+  let out := drive (nk + 70) (negb (h_explicit h =? 0)) times ops (empty_mesh fx) in
+  (* [99]: an instance was re-created while its slot was still pending erase (resurrection of the stopped child
+     graph) - outside the modelled domain, the whole case is answered [[99]] *)
+  if existsb (fun l => match l with [99] => true | _ => false end) out then [[99]] else out.
 
 (* the model of the tree as it is (repaired settle loop, /repo commit 1c89b1b) *)
 Definition run_mesh (w : wire) : wire := run_mesh_with true w.
